@@ -183,7 +183,7 @@ def step (s : State) (t : Tid) (a : Act) : Option State :=
   | .step, .pubStore => some (s.put t { th with ctx := true, pc := .exitCheck .poll })
   -- ── inside a safepoint ────────────────────────────────────────────────────────────────────
   | .step, .inSafe .prim => some (s.put t { th with pc := .exitCheck .prim })
-  | .step, .inSafe .poll => none
+  | .step, .inSafe .poll => some (s.put t { th with pc := .exitCheck .poll })   -- (not reachable)
   | .step, .inSafe k =>                   -- `heap.lock_arc()`
       if s.hlock.isSome then none else
       some ({ s with hlock := some t }.put t { th with pc := .exitCheck k })
